@@ -1227,6 +1227,8 @@ def mon_C03(ctx):
     from refs import common
     E = ctx.E
     rule = ctx.rule
+    if rule not in ('wigm-prf', 'wigm-prf-batch', 'scotland', 'mpls', 'cfer', 'cfer-batch', 'meek-prf', 'qpq'):
+        return
     names = name2cid(ctx)
     impl, impl_final = common.impl_stages(E, names)
     ts = ctx.ts
